@@ -37,7 +37,10 @@ def oracle_rows(ctx, t, strat_name, nrows_out):
         return
     if nrows_out == 0:
         if N >= lc.low_threshold + (lc.low_mean_gap + 8.5) * lc.layer_sd:
-            ctx.oracle_fail(f"empty synthetic table for N={N} >= low_threshold+(gap+8.5)*sd = {lc.low_threshold + (lc.low_mean_gap + 8.5) * lc.layer_sd}", case, "empty")
+            # F20: at low_threshold <= 1 a root released at the floor 1 can lose its only unit in the rescaling of its children (C10: the counts add up to
+            # the parent's count or one less) - recognised by the threshold itself together with count noise that can reach the floor
+            fp = "empty-at-low-threshold-1" if lc.low_threshold <= 1 and ap.layer_noise_sd > 0 else "empty"
+            ctx.oracle_fail(f"empty synthetic table for N={N} >= low_threshold+(gap+8.5)*sd = {lc.low_threshold + (lc.low_mean_gap + 8.5) * lc.layer_sd}", case, fp)
     elif not (N - 1 - B <= nrows_out <= N + B):
         ctx.oracle_fail(f"{nrows_out} synthetic rows for N={N} input rows, bound B={B} (strategy {strat_name})", case, "bound")
     if lc.layer_sd == 0 and ap.layer_noise_sd == 0:
@@ -49,7 +52,7 @@ def oracle_rows(ctx, t, strat_name, nrows_out):
 
 def stream_rows(ctx, ntables):
     from syndiffix import Synthesizer
-    from syndiffix.common import AnonymizationParams, SuppressionParams
+    from syndiffix.common import AnonymizationParams, SuppressionParams, BucketizationParams
     from syndiffix.clustering.strategy import SingleClustering, NoClustering, DefaultClustering
     from dataclasses import replace
     R = ctx.rng
@@ -68,6 +71,34 @@ def stream_rows(ctx, ntables):
             S.count((repr(t["df"].values.tolist()), repr(t2["ap"]), "directed-history"), True,
                     {"table": ES.typed_summary(t2), "strategy": "SingleClustering", "rows_out": len(out), "history": "noise 6.0, then off, then 1.0 on one table and salt"}, tag="noise-level-history")
             oracle_rows(ctx, t2, "SingleClustering (same table and salt synthesized before with another layer_noise_sd)", len(out))
+    # the table of known finding F20 (low_threshold 1: the root's only unit is lost in the rescaling), always evaluated
+    from syndiffix.common import FlatteningInterval
+    df20 = pd.DataFrame({"c0": pd.Series(["street-12", "street-9", "street-127", "street-9", "street-127"], dtype="str"), "b": [False, True, False, False, False]})
+    t20 = {"df": df20, "kinds": ["str", "bool"], "pids": None, "pid_mode": "unique", "n": 5,
+           "ap": AnonymizationParams(salt=b"Z}\xe3\xb6\xe5\xe3CPe\xbc\xcb\xd2p\xc1K_", low_count_params=SuppressionParams(low_threshold=1, layer_sd=0.0, low_mean_gap=2.0),
+                                     outlier_count=FlatteningInterval(1, 6), top_count=FlatteningInterval(4, 7), layer_noise_sd=4.0),
+           "bp": BucketizationParams(singularity_low_threshold=3, range_low_threshold=2, precision_limit_row_fraction=10, precision_limit_depth_threshold=2)}
+    try:
+        out20 = Synthesizer(df20, anonymization_params=t20["ap"], bucketization_params=t20["bp"], clustering=SingleClustering()).sample()
+        S.count(("F20",), True, {"table": ES.typed_summary(t20), "rows_out": len(out20)}, tag="corpus-F20")
+        oracle_rows(ctx, t20, "SingleClustering", len(out20))
+    except (RecursionError, ValueError):
+        pass
+    # small tables whose root is a leaf (3..9 rows, one constant or two-valued column), one salt, the suppression noise level changing from run to run
+    for N in (3, 4, 5, 6, 7, 9):
+        for salt in (b"hist-0001", R.getrandbits(64).to_bytes(8, "little")):
+            df = pd.DataFrame({"c": [7] * N}) if N % 2 else pd.DataFrame({"c": [1.5] * N, "d": ["x"] * N})
+            t = {"df": df, "kinds": ["int"] if N % 2 else ["float", "str"], "pids": None, "pid_mode": "unique", "bp": BucketizationParams(), "n": N,
+                 "ap": AnonymizationParams(salt=salt)}
+            for lsd in (3.0, 0.0, 0.5, 0.0):
+                t2 = dict(t, ap=replace(t["ap"], low_count_params=replace(t["ap"].low_count_params, layer_sd=lsd), layer_noise_sd=0.0))
+                try:
+                    out = Synthesizer(df, anonymization_params=t2["ap"], clustering=SingleClustering()).sample()
+                except (RecursionError, ValueError):
+                    break
+                S.count((N, salt, lsd, "sd-history"), True, {"table": ES.typed_summary(t2), "rows_out": len(out), "history": "layer_sd 3.0, 0.0, 0.5, 0.0 on one table and salt"},
+                        tag="suppression-sd-history")
+                oracle_rows(ctx, t2, "SingleClustering (same table and salt synthesized before with another layer_sd)", len(out))
     for _ in range(ntables):
         t = ES.gen_typed_table(R, max_rows=R.choice([60, 200, 400]))
         t["pids"] = None; t["pid_mode"] = "unique"
@@ -82,7 +113,7 @@ def stream_rows(ctx, ntables):
         strat = R.choice([SingleClustering, NoClustering, DefaultClustering])
         pids = None
         if R.random() < 0.3:       # one row per entity, stated through an explicit id column (the generic counters); mostly tables of a few rows
-            import pandas as pd
+            pass
             if R.random() < 0.7 and t["n"] > 3:
                 n2 = min(t["n"], R.randint(3, 12)); t["df"] = t["df"].iloc[:n2].reset_index(drop=True); t["n"] = n2
             ids = R.sample(range(1, 10 ** 6), t["n"])
